@@ -184,6 +184,9 @@ func evalC12(c C12Case) *h.Finding {
 			one("RSET")
 		} else {
 			expect(fmt.Sprintf("MAIL FROM:<ok@a.example> SIZE=%d", 1<<30), true, 0, "SIZE without limit")
+			expect("MAIL FROM:<ok@a.example> SIZE=2147483647", true, 0, "SIZE without limit (2^31-1)")
+			expect("MAIL FROM:<ok@a.example> SIZE=2147483648", true, 0, "SIZE without limit (2^31)")
+			expect("MAIL FROM:<ok@a.example> SIZE=4294967295", true, 0, "SIZE without limit (2^32-1)")
 		}
 		// RCPT parameters
 		one("MAIL FROM:<ok@a.example>")
@@ -205,6 +208,12 @@ func evalC12(c C12Case) *h.Finding {
 		one("RSET")
 		one("MAIL FROM:<ok@a.example>")
 		rp("RCPT TO:<ok1@b.example> RRVS=2014-04-03T23:01:00Z", cfg.RRVS, "RRVS")
+		one("RSET")
+		one("MAIL FROM:<ok@a.example>")
+		rp("RCPT TO:<ok1@b.example> RRVS=2014-04-03T23:01:00+01:00", cfg.RRVS, "RRVS (time with a positive UTC offset)")
+		one("RSET")
+		one("MAIL FROM:<ok@a.example>")
+		rp("RCPT TO:<ok1@b.example> RRVS=2021-10-31T02:30:00+05:45;C", cfg.RRVS, "RRVS (offset +05:45, action C)")
 		one("RSET")
 		// recipient limit
 		one("MAIL FROM:<ok@a.example>")
